@@ -34,6 +34,7 @@ ASSUMPTIONS = [
 
 AMOUNTS = ["0", "1", "-1", "2.5", "1e3", "1e-3", ".5", "+3", "7e-1", "12", "16", "25.4", "72", "96"]
 PAIR_AMTS = ["0", "1", "-2.5", "3", "12", "25.4"]
+AMOUNTS_T = ["-0", "0.0", "1e5", "-1e5", "3.14159265358979", "1e-9", "-7.25", "100", "1000", "0.001", "6", "2.54", "10", "33.333333333333"]
 RELS = [None, ("num", 200), ("numstr", "200"), ("str", "50mm"), ("len", "3in"), ("len", "40"), ("num", 0), ("num", -80),
         ("numstr", "0")]
 FULL = dict(ppi=96, rel=F(200), font_size=16, font_height=8, viewbox=(F(0), F(0), F(200), F(100)))
@@ -64,9 +65,13 @@ def make_ctx(ppi, rel, font, vb, in_per_cm=ls.EXACT_IN_PER_CM):
 class Value(SubCheck):
     name = "value"
 
-    def __init__(self, svg):
+    def __init__(self, svg, tier="quick"):
         self.svg = svg
-        self.p = Product(AMOUNTS, ls.UNITS, [96, 72, 300, None], RELS, [False, True],
+        amounts, ppis = AMOUNTS, [96, 72, 300, None]
+        if tier == "thorough":
+            amounts = AMOUNTS + AMOUNTS_T
+            ppis = [96, 72, 300, None, 1, 25.4, 254, 1200, 90.5]
+        self.p = Product(amounts, ls.UNITS, ppis, RELS, [False, True],
                          [None, "0 0 200 100", "0 0 100 200"])
 
     def size(self):
@@ -162,9 +167,10 @@ def model_binary(op, a, ua, b, ub, in_per_cm=ls.EXACT_IN_PER_CM):
 class Binary(SubCheck):
     name = "binary"
 
-    def __init__(self, svg):
+    def __init__(self, svg, tier="quick"):
         self.svg = svg
-        self.p = Product(OPS, ls.UNITS, ls.UNITS, PAIR_AMTS, PAIR_AMTS, FORMS)
+        pa = PAIR_AMTS + (["-1", "0.5", "96", "1e3", "72", "-25.4", "1e-3"] if tier == "thorough" else [])
+        self.p = Product(OPS, ls.UNITS, ls.UNITS, pa, pa, FORMS)
 
     def size(self):
         return len(self.p)
@@ -285,9 +291,13 @@ class Binary(SubCheck):
 class Convert(SubCheck):
     name = "convert"
 
-    def __init__(self, svg):
+    def __init__(self, svg, tier="quick"):
         self.svg = svg
-        self.p = Product(["to_mm", "to_cm", "to_inch"], ls.UNITS, AMOUNTS, [96, 72, 300])
+        amounts, ppis = AMOUNTS, [96, 72, 300]
+        if tier == "thorough":
+            amounts = AMOUNTS + AMOUNTS_T
+            ppis = [96, 72, 300, 1, 25.4, 254, 1200, 90.5]
+        self.p = Product(["to_mm", "to_cm", "to_inch"], ls.UNITS, amounts, ppis)
 
     def size(self):
         return len(self.p)
@@ -320,7 +330,7 @@ class Convert(SubCheck):
 
 
 def build(tier, seed, svg):
-    return [Value(svg), Binary(svg), Convert(svg)]
+    return [Value(svg, tier), Binary(svg, tier), Convert(svg, tier)]
 
 
 # ---- known finding: the in<->cm/mm constant 0.393701 (pinned by test_length.py)
